@@ -69,7 +69,7 @@ class SymVal:
         return SymVal(fn("getitem", 2)(self.e, lift(k)))
 
     def __call__(self, *args, **kwargs):
-        names = sorted(kwargs)
+        names = list(kwargs)          # keyword arguments in the order received (PEP 468): a callee may depend on it
         f = fn("call_%d_%s" % (len(args), "_".join(names)), 1 + len(args) + len(names))
         return SymVal(f(self.e, *[lift(a) for a in args], *[lift(kwargs[n]) for n in names]))
 
